@@ -20,6 +20,10 @@
 (*     zone-scoped IPv6 literal such as fe80::1%eth0) is judged by its     *)
 (*     address part for the upper bound and is never REQUIRED to be        *)
 (*     admitted when rules exist;                                          *)
+(*   - the other options of the same target (redirect=, strip=, host=, ...) *)
+(*     do not take part in the decision; a malformed one must never widen  *)
+(*     access either (what else happens to such a target is left open:     *)
+(*     MustAdmit holds only for targets whose other options are valid);    *)
 (*   - authentication: no scheme => authorised; a scheme name that is not  *)
 (*     configured => nobody is; basic => the credentials must match.       *)
 (*                                                                         *)
@@ -41,6 +45,9 @@ CONSTANTS
     KnownSchemes, \* the configured ones (all of type basic)
     Creds,      \* credential classes: "none" "good" "bad" "malformed"
     Protos,     \* subset of {"http", "tcp"}
+    Others,     \* classes of OTHER options the same target carries next to its rules ("" = none): redirect=, strip=,
+                \* host=, ... valid or not.  They say nothing about who may use the route.
+    ValidOthers, \* those of them that are documented and well-formed (incl. "")
     MaxItems,   \* bound on Len(allow) + Len(deny)
     MaxXff,     \* bound on the JUDGED part of the X-Forwarded-For chain
     Pres,       \* numbers of filler hops in front of the judged part (boundary values, e.g. {0, 15, 16, 17, 200})
@@ -73,8 +80,9 @@ Checked(q) == {q.peer} \cup SeqToSet(q.xff) \cup (IF q.pre + q.suf > 0 THEN {q.f
 \* upper bound: nothing outside this may ever be forwarded
 MayAdmit(r, q)  == \A a \in Checked(q) : WFAdmitAddr(r, a)
 \* lower bound: this must be forwarded (as far as access rules go)
-MustAdmit(r, q) == \/ NoRules(r)
-                   \/ (Clean(r) /\ MayAdmit(r, q) /\ Checked(q) \cap Zoned = {})
+MustAdmit(r, q) == /\ r.other \in ValidOthers
+                   /\ \/ NoRules(r)
+                      \/ (Clean(r) /\ MayAdmit(r, q) /\ Checked(q) \cap Zoned = {})
 
 Authorized(s, c) == \/ s = ""
                     \/ (s \in KnownSchemes /\ c = "good")
@@ -92,7 +100,7 @@ Outcomes(r, q) ==
 -----------------------------------------------------------------------------
 \* universes
 SeqsUpTo(S, n) == UNION {[1..k -> S] : k \in 0..n}
-Configs == {c \in [allow : SeqsUpTo(Items, MaxItems), deny : SeqsUpTo(Items, MaxItems)] :
+Configs == {c \in [allow : SeqsUpTo(Items, MaxItems), deny : SeqsUpTo(Items, MaxItems), other : Others] :
               Len(c.allow) + Len(c.deny) <= MaxItems}
 HttpReqs == IF "http" \in Protos
             THEN {q \in [proto : {"http"}, peer : Addrs, xff : SeqsUpTo(Addrs, MaxXff), scheme : Schemes, creds : Creds,
@@ -106,7 +114,7 @@ TcpReqs  == IF "tcp" \in Protos
             ELSE {}
 Reqs == HttpReqs \cup TcpReqs
 
-NoCfg == [allow |-> <<>>, deny |-> <<>>]
+NoCfg == [allow |-> <<>>, deny |-> <<>>, other |-> ""]
 NoReq == [proto |-> "", peer |-> "", xff |-> <<>>, scheme |-> "", creds |-> "", pre |-> 0, suf |-> 0, fill |-> ""]
 
 -----------------------------------------------------------------------------
@@ -199,6 +207,13 @@ DenyRejectsInside ==
     (AtCase /\ rules.deny # <<>>
        /\ \E a \in Checked(req) : \E i \in DOMAIN rules.deny : <<a, rules.deny[i]>> \in Member)
     => ~MayAdmit(rules, req)
+\* whatever other option the target carries - malformed or not - the upper bound is the one of the rules, and
+\* a malformed one creates no obligation to admit
+OtherOptionNeverWidens ==
+    AtCase => \A o \in Others :
+        LET r2 == [rules EXCEPT !.other = o] IN
+        /\ MayAdmit(r2, req) = MayAdmit(rules, req)
+        /\ (o \notin ValidOthers => ~MustAdmit(r2, req))
 \* the length of the chain and the position of an element do not matter: moving fillers from the
 \* front to the back, or adding more of them, never changes the bounds
 ChainPositionFree ==
